@@ -545,8 +545,17 @@ def _sg(ck: Checker, prog: Program):
     if len(edge) != 1 or len(inner) != 1:
         raise AnalysisError(f"{hq}: edge test / inner loop not found")
     TT = Translator()
-    idx, nc, nfr = TT.sym(k), TT.sym("ncoeff"), TT.sym("nfreqs")
-    skip = TT.tr(edge[0].test)
+    # by value: the locals that hold the number of coefficients / of spectrum samples may have any name
+    from ..resolve import Resolver as _Res0, canon as _canon0
+    R0 = _Res0(prog, h, inline=False, keep={k})
+    idx = TT.sym(k)
+    nc, nfr = sp.Symbol("<ncoeff>", integer=True, positive=True), sp.Symbol("<nfreqs>", integer=True, positive=True)
+    coef_p, spec_p = h.params[2], h.params[0]
+    sizes = {}
+    for src_, sym_ in ((f"{coef_p}.size", nc), (f"len({coef_p})", nc), (f"{coef_p}.shape[0]", nc),
+                       (f"{spec_p}.shape[1]", nfr), (f"{spec_p}.shape[-1]", nfr)):
+        sizes[_canon0(R0.expect(src_))] = sym_
+    skip = _canon0(R0.value(edge[0].test, edge[0])).xreplace(sizes)
     rels = list(skip.args) if isinstance(skip, sp.Or) else [skip]
     lower = upper = None
     for r in rels:
@@ -597,10 +606,20 @@ def _sg(ck: Checker, prog: Program):
     else:
         ck.violation("C02.R5", hq, norm_key(edge[0]),
                      f"the edge test keeps windows that read outside the spectrum: kept implies k >= {lower} and k + ({upper}) <= nfreqs, but the window "
-                     f"reads k - (ncoeff-1) .. k + (ncoeff-1) (unchecked reads in compiled code return garbage from the next row)", loc=h.loc(edge[0]))
-    zero = any(isinstance(b, ast.Assign) and unparse(b.targets[0]) == f"smoothed_spectrum[:, {col}]" and unparse(b.value) == "0" for b in edge[0].body)
-    store = [st for st in lp.body if isinstance(st, ast.Assign) and unparse(st.targets[0]) == f"smoothed_spectrum[:, {col}]"]
-    if zero and len(store) == 1 and unparse(store[0].value) == "summation / normalization_coefficient":
+                     f"reads k - (ncoeff-1) .. k + (ncoeff-1) with ncoeff the number of coefficients (unchecked reads in compiled code return garbage from the next row)", loc=h.loc(edge[0]))
+    hrets = [r for r in own_nodes(h.node) if isinstance(r, ast.Return)]
+    out_name = hrets[0].value.id if len(hrets) == 1 and isinstance(hrets[0].value, ast.Name) else None
+    tgt_txt = f"{out_name}[:, {col}]"
+    zero = any(isinstance(b, ast.Assign) and unparse(b.targets[0]) == tgt_txt and unparse(b.value) in ("0", "0.0") for b in edge[0].body)
+    store = [st for st in lp.body if isinstance(st, ast.Assign) and unparse(st.targets[0]) == tgt_txt]
+    val_ok = False
+    if len(store) == 1 and acc_name is not None:
+        RS = _Resolver(prog, h, inline=False, keep={k, acc_name})
+        try:
+            val_ok = equal(_canon(RS.value(store[0].value, store[0])), _canon(RS.expect(f"{acc_name} / {h.params[3]}")))
+        except AnalysisError:
+            val_ok = False
+    if zero and len(store) == 1 and val_ok:
         ck.ok("C02.R5", hq, "incomplete windows -> 0; else summation / N")
     else:
         ck.violation("C02.R5", hq, "stored value", "the stored column is not summation/normalization_coefficient (0 for incomplete windows)", loc=h.loc(lp))
